@@ -2,6 +2,7 @@
 C16 — Object export / import round-trips and survives JSON.
 -/
 import Rmk.Proofs.ObjRoundtrip
+import Rmk.Proofs.ObjTreeLaws
 namespace Rmk.C16
 open Rmk Rmk.Obj
 
@@ -20,5 +21,30 @@ theorem shape (t : Ty) (v : Val) (hwf : t.wf = true) (hwt : WT t v = true) :
 /-- import is insensitive to tuple-vs-array for every object, valid or not -/
 theorem import_jsonNorm (t : Ty) (o : Obj) : fromObj t (jsonNorm o) = fromObj t o :=
   ObjRoundtrip.fromObj_jsonNorm t o
+
+/-- THE EXPORT THE LIBRARY COMPUTES — from the tree, through the read-only iterators (`PackedIter`, `NodeIter`, the
+    container iterator) and the tree-reading serialiser — is the export of the plain value, on EVERY tree that
+    represents the value (fresh, decoded or after any history of mutations); so the round-trip theorems above speak
+    about what `to_obj()` really returns. -/
+theorem export_from_tree (H : Hash) (t : Ty) (v : Val) (n : Node) (hwf : t.wf = true)
+    (hlim : ReprBasics.limitsOk t = true) (h : Impl.Repr H t v n) :
+    Impl.toObjTree H t n = some (toObj t v) := ObjTreeLaws.toObjTree_repr H t v n hwf hlim h
+
+/-- in particular for every freshly constructed valid value, and importing that export gives the value back -/
+theorem export_import_constructed (H : Hash) (t : Ty) (v : Val) (hwf : t.wf = true)
+    (hlim : ReprBasics.limitsOk t = true) (hwt : WT t v = true) :
+    ∃ n o, Impl.construct H t v = some n ∧ Impl.toObjTree H t n = some o ∧ fromObj t o = some v ∧
+      fromObj t (jsonNorm o) = some v := by
+  obtain ⟨n, hn, ho⟩ := ObjTreeLaws.toObjTree_construct H t v hwf hlim hwt
+  exact ⟨n, _, hn, ho, roundtrip t v hwf hwt, roundtrip_json t v hwf hwt⟩
+
+/-- two trees that represent the same value export identically (the export does not depend on the history) -/
+theorem export_history_independent (H : Hash) (t : Ty) (v : Val) (n n' : Node) (hwf : t.wf = true)
+    (hlim : ReprBasics.limitsOk t = true) (h : Impl.Repr H t v n) (h' : Impl.Repr H t v n') :
+    Impl.toObjTree H t n = Impl.toObjTree H t n' := ObjTreeLaws.toObjTree_unique H t v n n' hwf hlim h h'
+
+/-! Non-vacuity -/
+example (H : Hash) : Impl.toObjTree H (.uint 1) (.leaf (chunkOfLE 1 5)) = some (.num 5) :=
+  export_from_tree H (.uint 1) (.num 5) _ rfl rfl (by simp [Impl.Repr])
 
 end Rmk.C16
